@@ -6,13 +6,13 @@ require (
 	github.com/DistCompiler/pgo/distsys v0.0.0
 	github.com/anishathalye/porcupine v1.3.0
 	github.com/benbjohnson/immutable v0.4.3
+	github.com/dgraph-io/badger/v3 v3.2103.5
 	pgregory.net/rapid v1.3.0
 )
 
 require (
 	github.com/cespare/xxhash v1.1.0 // indirect
 	github.com/cespare/xxhash/v2 v2.3.0 // indirect
-	github.com/dgraph-io/badger/v3 v3.2103.5 // indirect
 	github.com/dgraph-io/ristretto v0.2.0 // indirect
 	github.com/dustin/go-humanize v1.0.1 // indirect
 	github.com/gogo/protobuf v1.3.2 // indirect
